@@ -850,24 +850,24 @@ theorem finish_pval (ro : Bool) {L : List XR} (hne : L ≠ []) (hL : ∀ T ∈ L
       (npmin_cap (hL _ (lastD_eq hne).2)).1, (npmin_cap (hL _ (lastD_eq hne).2)).2]
 
 /-- `min(1, 1/T)` of a rational statistic, a zero statistic giving `1` (`1/0 = +inf`) -/
-def pOf (T : Rat) : Rat := if T = 0 then 1 else min 1 (1 / T)
+def pOfQ (T : Rat) : Rat := if T = 0 then 1 else min 1 (1 / T)
 
-theorem pOf_zero : pOf 0 = 1 := by simp [pOf]
-theorem pOf_of_ne {T : Rat} (h : T ≠ 0) : pOf T = min 1 (1 / T) := by simp [pOf, h]
+theorem pOfQ_zero : pOfQ 0 = 1 := by simp [pOfQ]
+theorem pOfQ_of_ne {T : Rat} (h : T ≠ 0) : pOfQ T = min 1 (1 / T) := by simp [pOfQ, h]
 
-/-- all four ways the code writes `min(1, 1/T)` agree with `pOf` on every finite statistic -/
+/-- all four ways the code writes `min(1, 1/T)` agree with `pOfQ` on every finite statistic -/
 theorem min_inv_fin (T : Rat) :
-    npmin 1 ((1 : XR) / fin T) = fin (pOf T) ∧ npmin ((1 : XR) / fin T) 1 = fin (pOf T) ∧
-    pymin 1 ((1 : XR) / fin T) = fin (pOf T) ∧ pymin ((1 : XR) / fin T) 1 = fin (pOf T) := by
+    npmin 1 ((1 : XR) / fin T) = fin (pOfQ T) ∧ npmin ((1 : XR) / fin T) 1 = fin (pOfQ T) ∧
+    pymin 1 ((1 : XR) / fin T) = fin (pOfQ T) ∧ pymin ((1 : XR) / fin T) 1 = fin (pOfQ T) := by
   by_cases h0 : T = 0
   · subst h0
-    rw [one_div_zero, pOf_zero]
+    rw [one_div_zero, pOfQ_zero]
     simp [npmin, pymin, lt, isNan]
   · rw [one_div_fin h0, one_def, npmin_fin_fin, npmin_fin_fin, pymin_fin_fin, pymin_fin_fin,
-      pOf_of_ne h0, min_comm (1 / T) 1]
+      pOfQ_of_ne h0, min_comm (1 / T) 1]
     exact ⟨rfl, rfl, rfl, rfl⟩
 
-theorem pv_fin_eq_pOf {T : Rat} (h : 0 ≤ T) : pv (fin T) = pOf T := by
+theorem pv_fin_eq_pOf {T : Rat} (h : 0 ≤ T) : pv (fin T) = pOfQ T := by
   have h1 := (min_inv_all (good_fin h)).1
   rw [(min_inv_fin T).1] at h1
   exact (XR.fin.inj h1).symm
